@@ -11,6 +11,9 @@ depth-first order, of what every visited object writes, so `flatten` returns tho
 `writeWithAttributeEscaping(write)` escapes every chunk written through it with single-byte
 replacements, which distribute over concatenation: the attribute value is modelled as
 `attrEsc (bytes written by the value's flattening)`.
+Both abstractions are discharged in `TwistedModel/Web/FlattenIO.lean` (every `write` call kept apart, the
+attribute wrappers applied per chunk, `bufferedWrite`/`flushBuffer` for any `BUFFER_SIZE`) and
+`TwistedProps.C28.buffering_invisible`: the chunks delivered upstream, joined, are the bytes `flatten` returns.
 
 The slot stack (`slotData`, one shared Python list) is threaded through the traversal
 exactly as the code mutates it: a `Tag` *without* a render directive appends its `slotData`
